@@ -78,6 +78,7 @@ def main():
         out["ran"].append("go test ./%s with demo + change: rc=%d" % (pkg, rc1))
         os.remove(dst)
         run(["git", "checkout", "--", "."], cwd=wt)
+        run(["git", "clean", "-fdq"], cwd=wt)  # a change may add new files
         shutil.copy(demo, dst)
         rc2, o2 = run("go test -vet=off -count=1 -timeout 300s ./%s" % pkg, cwd=wt)
         out["demo_passes_without_change"] = rc2 == 0
